@@ -28,4 +28,19 @@ theorem integral_step_restamps (chk : Bool) (s s' : DiS F) (p o : Datum (Quantit
   all_goals simp_all
   all_goals (obtain ⟨rfl, _⟩ := h; exact ⟨_, rfl⟩)
 
+/-- the derivative stream likewise: a zero difference (a signal at rest) is a sample like any other -/
+theorem derivative_step_stores_sample (chk : Bool) (s s' : DiS F) (o : Datum (Quantity F)) (r : UpdRet)
+    (h : Derivative.step chk s (.ok (some o)) = .ok (s', r)) : s'.prev = some o ∧ r = .ok () := by
+  unfold Derivative.step at h
+  split at h <;> simp_all
+  all_goals (repeat' split at h) <;> simp_all <;> (try (obtain ⟨rfl, rfl⟩ := h; simp))
+
+theorem derivative_step_restamps (chk : Bool) (s s' : DiS F) (p o : Datum (Quantity F)) (r : UpdRet) (hp : s.prev = some p)
+    (h : Derivative.step chk s (.ok (some o)) = .ok (s', r)) : ∃ v, s'.value = .ok (some ⟨o.time, v⟩) := by
+  unfold Derivative.step at h
+  simp only [hp] at h
+  repeat' split at h
+  all_goals simp_all
+  all_goals (obtain ⟨rfl, _⟩ := h; exact ⟨_, rfl⟩)
+
 end Rrtk.Thm.C10
